@@ -203,8 +203,17 @@ type Obs struct {
 // The declaration must already carry its required fields (WithRequired), so that
 // what ValidateFix returns is what the model and the oracle are given.
 func (d Decl) NewValidated() (dig.Integration, error) {
+	// as in a configuration file: a filter_ref names integration and column only;
+	// ValidateFilterRefs resolves the referenced table
+	ev, bl := d.DigEvent(), d.DigBlock()
+	for i := range ev.Inputs {
+		ev.Inputs[i].Filter.Ref.Table = ""
+	}
+	for i := range bl {
+		bl[i].Filter.Ref.Table = ""
+	}
 	root := config.Root{Integrations: []config.Integration{{
-		Name: d.Name, Enabled: true, Table: d.DigTable(), Block: d.DigBlock(), Event: d.DigEvent(), FilterAGG: d.Agg,
+		Name: d.Name, Enabled: true, Table: d.DigTable(), Block: bl, Event: ev, FilterAGG: d.Agg,
 	}}}
 	// the integrations that filter_ref entries name: "ig_<table>" with table <table>(<column>)
 	have := map[string]bool{}
